@@ -216,4 +216,258 @@ theorem sched_solo_eq_algo (m : UidMode) (cfgs : Nat → Cfg) (u0 : Nat) (ops : 
   simp [framesOf, this]
 
 
+/-! ### the uuids -/
+
+theorem run_inv (m : UidMode) (cfgs : Nat → Cfg) (P : Sys → Prop)
+    (hstep : ∀ s op, P s → P (stepSys m cfgs s op)) (ops : List Op) (s : Sys) (h : P s) :
+    P (ops.foldl (stepSys m cfgs) s) := by
+  induction ops generalizing s with
+  | nil => exact h
+  | cons op ops ih => exact ih _ (hstep s op h)
+
+theorem frame_uids (cfg : Cfg) (jb : Job) (us : List Nat) (t : Int) (dsts : List Pos) :
+    (Job.frame cfg jb us t dsts).uids = jb.uids ++ [us] := by
+  unfold Job.frame
+  cases jb.st with
+  | none => rfl
+  | some st => simp only; cases jobLabels cfg st t dsts <;> rfl
+
+/-- the ghost log restricted to job `j` is what `j` recorded (every mode) -/
+theorem sched_handed_job (m : UidMode) (cfgs : Nat → Cfg) (u0 : Nat) (ops : List Op) (j : Nat) :
+    (((runSched m cfgs u0 ops).handed.filter (fun x => x.1 == j)).map (·.2)) =
+      ((runSched m cfgs u0 ops).jobs j).uids.flatten := by
+  refine run_inv m cfgs (fun s => ∀ k, ((s.handed.filter (fun x => x.1 == k)).map (·.2)) =
+      (s.jobs k).uids.flatten) ?_ ops (Sys.init0 u0) (fun k => by simp [Sys.init0]) j
+  intro s op hs k
+  cases op with
+  | frame i t dsts =>
+    unfold stepSys
+    simp only
+    split
+    · exact hs k
+    · simp only [List.filter_append, List.map_append, hs k]
+      by_cases hk : k = i
+      · subst hk
+        simp [upd, frame_uids, List.filter_map, Function.comp_def]
+      · have : (i == k) = false := by simpa using Ne.symm hk
+        simp [upd, hk, List.filter_map, Function.comp_def, this]
+
+/-- one process-wide counter that is never reset hands out `u0, u0+1, …` -/
+theorem shared_handed_eq (cfgs : Nat → Cfg) (u0 : Nat) (ops : List Op) :
+    ∃ k, (runSched .shared cfgs u0 ops).uid = u0 + k ∧
+      (runSched .shared cfgs u0 ops).handed.map (·.2) = List.range' u0 k := by
+  refine run_inv .shared cfgs (fun s => ∃ k, s.uid = u0 + k ∧ s.handed.map (·.2) = List.range' u0 k)
+    ?_ ops (Sys.init0 u0) ⟨0, by simp [Sys.init0]⟩
+  intro s op ⟨k, hu, hh⟩
+  cases op with
+  | frame i t dsts =>
+    unfold stepSys
+    simp only
+    split
+    · exact ⟨k, hu, hh⟩
+    · refine ⟨k + dsts.length, by simp [uidAfter, hu, Nat.add_assoc], ?_⟩
+      simp [uidBase, hu, hh, List.map_append, Function.comp_def]
+
+/-- **A process-wide point counter is harmless.**  With one never-reset counter shared by all
+jobs, all uuids handed out along a schedule — to every level of every job — are pairwise
+distinct; by `sched_labels_independent_of_uid` they have no influence on any label. -/
+theorem sched_uids_fresh (cfgs : Nat → Cfg) (u0 : Nat) (ops : List Op) :
+    ((runSched .shared cfgs u0 ops).handed.map (·.2)).Nodup := by
+  obtain ⟨k, _, h⟩ := shared_handed_eq cfgs u0 ops
+  rw [h]; exact List.nodup_range'
+
+/-- … in particular within every job (the concatenation of a job's levels has no repetition) -/
+theorem sched_uids_fresh_job (cfgs : Nat → Cfg) (u0 : Nat) (ops : List Op) (j : Nat) :
+    ((runSched .shared cfgs u0 ops).jobs j).uids.flatten.Nodup := by
+  rw [← sched_handed_job]
+  have h := sched_uids_fresh cfgs u0 ops
+  exact (h.sublist (List.Sublist.map _ List.filter_sublist))
+
+/-- the step of a job whose points are numbered by the job's own counter -/
+def jobStepPL (cfg : Cfg) (jb : Job) (f : Int × List Pos) : Job :=
+  if jb.failed then jb else
+  Job.frame cfg jb (List.range' (if jb.st.isNone then 0 else jb.nextUid) f.2.length) f.1 f.2
+
+theorem stepSys_perLinker_own (cfgs : Nat → Cfg) (s : Sys) (j : Nat) (t : Int) (dsts : List Pos) :
+    (stepSys .perLinker cfgs s (.frame j t dsts)).jobs j = jobStepPL (cfgs j) (s.jobs j) (t, dsts) := by
+  unfold stepSys jobStepPL
+  simp only
+  split
+  · rfl
+  · simp [upd, uidBase]
+
+/-- **The code as it is (per-Linker point counter): the WHOLE job component is isolated** — labels,
+state and the uuids of its points (which decide the iteration order of its point sets, hence the
+choice among tied optima in the real code) are those of the job run alone, whatever the base
+counter held. -/
+theorem sched_noninterference_perLinker (cfgs : Nat → Cfg) (u0 u0' : Nat) (ops : List Op) (j : Nat) :
+    (runSched .perLinker cfgs u0 ops).jobs j =
+      (runSched .perLinker cfgs u0' (ops.filter (fun op => op.job == j))).jobs j := by
+  unfold runSched
+  have h1 := foldl_proj .perLinker cfgs j id (jobStepPL (cfgs j))
+    (fun s t dsts => stepSys_perLinker_own cfgs s j t dsts) ops (Sys.init0 u0)
+  have h2 := foldl_proj .perLinker cfgs j id (jobStepPL (cfgs j))
+    (fun s t dsts => stepSys_perLinker_own cfgs s j t dsts)
+    (ops.filter (fun op => op.job == j)) (Sys.init0 u0')
+  rw [framesOf_filter] at h2
+  simp only [id] at h1 h2
+  rw [h1, h2]
+  rfl
+
+theorem range'_app (a n : Nat) : List.range' 0 a ++ List.range' a n = List.range' 0 (a + n) := by
+  have := List.range'_append (s := 0) (m := a) (n := n) (step := 1)
+  simpa using this
+
+/-- a job's points are numbered `0, 1, 2, …` in creation order -/
+theorem sched_uids_perLinker (cfgs : Nat → Cfg) (u0 : Nat) (ops : List Op) (j : Nat) :
+    ((runSched .perLinker cfgs u0 ops).jobs j).uids.flatten =
+      List.range' 0 ((runSched .perLinker cfgs u0 ops).jobs j).nextUid := by
+  refine (run_inv .perLinker cfgs (fun s => ∀ k, ((s.jobs k).st = none → (s.jobs k).uids = []) ∧
+      (s.jobs k).uids.flatten = List.range' 0 (s.jobs k).nextUid) ?_ ops (Sys.init0 u0)
+      (fun k => by simp [Sys.init0]) j).2
+  intro s op hs k
+  cases op with
+  | frame i t dsts =>
+    by_cases hk : k = i
+    · subst hk
+      rw [stepSys_perLinker_own]
+      unfold jobStepPL
+      split
+      · exact hs k
+      · obtain ⟨h1, h2⟩ := hs k
+        unfold Job.frame
+        cases hst : (s.jobs k).st with
+        | none => simp [h1 hst]
+        | some st =>
+          simp only
+          cases jobLabels (cfgs k) st t dsts <;> simp [h2, range'_app]
+    · rw [stepSys_other .perLinker cfgs s _ k (by simpa [Op.job] using Ne.symm hk)]
+      exact hs k
+
+theorem sched_uids_fresh_perLinker (cfgs : Nat → Cfg) (u0 : Nat) (ops : List Op) (j : Nat) :
+    ((runSched .perLinker cfgs u0 ops).jobs j).uids.flatten.Nodup := by
+  rw [sched_uids_perLinker]; exact List.nodup_range'
+
+
+/-! ### every job's output is an accepted (valid, optimal) labelling -/
+
+/-- a job's frames paired with the labels it yielded -/
+def jobLLevels (fr : List (Int × List Pos)) (out : List (List Nat)) : List LLevel :=
+  List.zipWith (fun f l => ({ t := f.1, dsts := f.2, labels := l } : LLevel)) fr out
+
+theorem algoFrom_within (cfg : Cfg) (fr : List (Int × List Pos)) (st : State)
+    (hc : WithinCaps cfg st fr) :
+    algoFrom cfg st fr = ((algoRun cfg st fr).map (·.labels), false) := by
+  induction fr generalizing st with
+  | nil => rfl
+  | cons f fr ih =>
+    obtain ⟨t, dsts⟩ := f
+    obtain ⟨_, hover, hrest⟩ := hc
+    have hl : jobLabels cfg st t dsts = some (algoLab cfg st t dsts) := by
+      simp [jobLabels, hover, algoLabels_eq]
+    simp [algoFrom, hl, algoRun, ih _ hrest]
+
+theorem jobLLevels_algoRun (cfg : Cfg) (fr : List (Int × List Pos)) (st : State) :
+    jobLLevels fr ((algoRun cfg st fr).map (·.labels)) = algoRun cfg st fr := by
+  induction fr generalizing st with
+  | nil => rfl
+  | cons f fr ih =>
+    obtain ⟨t, dsts⟩ := f
+    simp only [algoRun, List.map_cons, jobLLevels, List.zipWith_cons_cons]
+    congr 1
+    exact ih _
+
+/-- **Under any schedule each job's output is accepted by the monitor** (hence valid — C01
+`accepted_valid` — and step-wise optimal — C02 `step_optimal`): if job `j`'s own movie stays within
+the neighbour cap and the sub-net size limit (`WithinCaps`, a condition on `j`'s frames alone), then
+`j` does not raise and the levels it yields form a movie the step relation accepts. -/
+theorem sched_job_accepted (m : UidMode) (cfgs : Nat → Cfg) (u0 : Nat) (ops : List Op) (j : Nat)
+    (t0 : Int) (d0 : List Pos) (rest : List (Int × List Pos))
+    (hfr : framesOf ops j = (t0, d0) :: rest) (hdrop : (cfgs j).drop = false)
+    (hc : WithinCaps (cfgs j) (firstState t0 d0) rest) :
+    ((runSched m cfgs u0 ops).jobs j).failed = false ∧
+    Accepts (cfgs j) (jobLLevels (framesOf ops j) ((runSched m cfgs u0 ops).jobs j).out) := by
+  have h := sched_job_eq_algo m cfgs u0 ops j
+  rw [hfr] at h
+  simp only [algoMovie, algoFrom_within _ _ _ hc, Prod.mk.injEq] at h
+  obtain ⟨hout, hfail⟩ := h
+  refine ⟨hfail, ?_⟩
+  rw [hout, hfr]
+  simp only [jobLLevels, List.zipWith_cons_cons]
+  have hi : initCheck t0 d0 (List.range d0.length) =
+      .ok (firstState t0 d0) 0 0 (List.range d0.length).length false := by
+    simp [initCheck, firstState, List.nodup_range]
+  refine ⟨firstState t0 d0, 0, 0, _, false, hi, ?_⟩
+  have hinv := (initCheck_ok (cfgs j) hi).2
+  have := algo_run_accepted (cfgs j) hdrop rest (firstState t0 d0) _ hinv hc
+  have he := jobLLevels_algoRun (cfgs j) rest (firstState t0 d0)
+  simp only [jobLLevels] at he
+  rw [he]
+  exact this
+
+/-- … so it is a valid history: one label per feature, none twice in a level, consecutive
+observations of a label at most `memory+1` levels and `search_range` apart -/
+theorem sched_job_valid (m : UidMode) (cfgs : Nat → Cfg) (u0 : Nat) (ops : List Op) (j : Nat)
+    (t0 : Int) (d0 : List Pos) (rest : List (Int × List Pos))
+    (hfr : framesOf ops j = (t0, d0) :: rest) (hdrop : (cfgs j).drop = false)
+    (hc : WithinCaps (cfgs j) (firstState t0 d0) rest) :
+    ValidHist (cfgs j)
+      (jobLLevels (framesOf ops j) ((runSched m cfgs u0 ops).jobs j).out).reverse :=
+  accepted_valid _ _ (sched_job_accepted m cfgs u0 ops j t0 d0 rest hfr hdrop hc).2
+
+/-! ### non-vacuity: two jobs, alternating -/
+
+/-- 1-D, range² = 16, no memory -/
+def exCfg : Cfg :=
+  { w := [1], B := 16, memory := 0, maxNeighbors := 10, maxSize := 30, vel := none, drop := false }
+
+/-- job 0: three frames of two features (the two swap their order in frame 1; one leaves in frame
+2); job 1: two frames; stepped 0, 1, 0, 1, 0 -/
+def exOps : List Op :=
+  [.frame 0 0 [[0], [10]], .frame 1 0 [[5]], .frame 0 1 [[11], [1]], .frame 1 1 [[6], [20]],
+   .frame 0 2 [[2], [30]]]
+
+/-- job 0 alone -/
+def exSolo : List Op := [.frame 0 0 [[0], [10]], .frame 0 1 [[11], [1]], .frame 0 2 [[2], [30]]]
+
+example : exOps.filter (fun op => op.job == 0) = exSolo := by decide
+
+section
+open TrackpyV.Assign
+macro "jsched_eval" : tactic => `(tactic|
+  simp [runSched, stepSys, Sys.init0, upd, uidBase, uidAfter, Job.frame, jobLabels, firstState,
+    exOps, exSolo, oversizeB, nextState, initCfg,
+    algoLabels, algoChoices, groupChoice, allSomeL, srcOf, solveOrdered, go, exceeds,
+    taken, better, labelOf, trackOf, freshBase,
+    stepGroups, stepCands, subnets, candsOf, candsOfRow, distRow, dist2,
+    view, sqI, insCand, exCfg, addSource,
+    hasDest, realDests, List.find?, getD', List.zipIdx, List.range, List.range.loop, List.range'])
+
+/-- the interleaved run (code as it is, base counter at 7): labels of both jobs … -/
+example : ((runSched .perLinker (fun _ => exCfg) 7 exOps).jobs 0).out = [[0, 1], [1, 0], [0, 3]] := by
+  jsched_eval
+example : ((runSched .perLinker (fun _ => exCfg) 7 exOps).jobs 1).out = [[0], [0, 2]] := by
+  jsched_eval
+/-- … are those of the solo run (the instance of `sched_noninterference`, evaluated) -/
+example : ((runSched .perLinker (fun _ => exCfg) 0 exSolo).jobs 0).out = [[0, 1], [1, 0], [0, 3]] := by
+  jsched_eval
+/-- uuids of job 0's points in the three modes -/
+example : ((runSched .perLinker (fun _ => exCfg) 7 exOps).jobs 0).uids = [[0, 1], [2, 3], [4, 5]] := by
+  jsched_eval
+example : ((runSched .shared (fun _ => exCfg) 7 exOps).jobs 0).uids = [[7, 8], [10, 11], [14, 15]] := by
+  jsched_eval
+
+/-- **The code before `fix:` c3b1c87** (one base counter drawn by every point and reset by every
+`init_level`): job 1's first frame, stepped between job 0's frames 0 and 1, resets the counter, so
+the points of job 0's frame 1 get the uuids 1, 2 while those of its frame 0 — the sources of that
+very step, alive in the same sets — carry 0, 1: two live points of one job share uuid 1. -/
+theorem sharedReset_uid_witness :
+    ((runSched .sharedReset (fun _ => exCfg) 0 exOps).jobs 0).uids = [[0, 1], [1, 2], [5, 6]] ∧
+    ¬ ((runSched .sharedReset (fun _ => exCfg) 0 exOps).jobs 0).uids.flatten.Nodup := by
+  have h : ((runSched .sharedReset (fun _ => exCfg) 0 exOps).jobs 0).uids = [[0, 1], [1, 2], [5, 6]] := by
+    jsched_eval
+  refine ⟨h, ?_⟩
+  rw [h]; decide
+end
+
 end TrackpyV.JobsLinker
